@@ -39,7 +39,7 @@ class TimeoutCall(Contract):
 
     def callee(self, it, fv):
         if fv.qualname == "mimic_function":
-            return lambda it2, fv2, cargs, node: cargs.kw.get("within", V.VNone)
+            return lambda it2, fv2, cargs, node: cargs.arg(1, "within", V.VNone)
         return None
 
     def setup(self, it, env):
@@ -52,6 +52,7 @@ class TimeoutCall(Contract):
         self.obj = it.instantiate(info.cid, CallArgs([self.fn], {"timeout": tmo}))
         self.args = sym_tuple(it, "args")
         self.kwargs = st.sym_ref("kwargs", "dict")
+        inside_some_scope(it)
         self.mark = attr_write_mark(it)
         return method(it, info, self.obj, "__call__"), CallArgs(star=self.args, starstar=self.kwargs)
 
@@ -117,6 +118,11 @@ class TimeoutCall(Contract):
         if not ok_shape:
             raise PathEnd("unexpected wiring")
         self.task, self.handle, self.fut = tasks[0]["task"], timers[0]["handle"], aw.data["fut"]
+        # "with the function's own result or exception": the function's failure is delivered to the caller through the result
+        # future - a task that is a member of a task group (ctx.spawn inside a scope) would make the *group* react to it first
+        # (abort: cancel the caller and every other member) before the wrapper's own completion callback runs
+        st.check("P4:the-function-runs-in-a-plain-task-of-the-loop(not-a-member-of-the-callers-task-group)",
+                 z3.BoolVal(tasks[0].get("name") != "TaskGroup.create_task"))
         coro = st.fun_of(tasks[0]["coro"]) if tasks[0]["coro"] is not None else None
         ca = coro.data["cargs"] if isinstance(coro, AwaitableV) and coro.kind == "oracle" else None
         st.check("P4:task-runs-the-function-with-the-callers-arguments",
@@ -279,8 +285,9 @@ class TimeoutFactory(Contract):
         ok = len(self.made) == 1
         it.st.check("P6:one-timeout-wrapper-around-the-function-with-the-configured-timeout",
                     z3.BoolVal(ok) if not ok else
-                    z3.And(z3.BoolVal(len(self.made[0].pos) == 1) if len(self.made[0].pos) != 1 else self.made[0].pos[0] == self.fn,
-                           (self.made[0].kw.get("timeout") if "timeout" in self.made[0].kw else V.VNone) == self.tmo))
+                    (lambda a: z3.BoolVal(False) if (a["function"] is None or a["$extra"])
+                     else z3.And(a["function"] == self.fn, (a["timeout"] if a["timeout"] is not None else V.VNone) == self.tmo))(
+                        named_args(self.made[0], "function", "timeout")))
         st = it.st
         it.st.check("P6:wrapping-leaves-the-wrapped-callable-untouched(other-users-of-it-keep-their-own-deadline)",
                     z3.BoolVal(all(v.eq(self.h0.get(k, st.heap0.get(k))) for k, v in st.heap.items()
